@@ -222,12 +222,26 @@ fn judge_real(ctx: &mut Ctx, c: &CaseIn, parts: &[Vec<usize>], out: &Out, specs:
         Out::Ok(v) => v,
         Out::Err(e) => {
             let absent = e.contains("Overlapping ranges") && range_absent_column_signature(c.nodes, c.docs, parts);
+            if (e.contains("limit") || e.contains("error")) && date_hist_below_mdc0_terms(c.nodes, false) && parts.iter().filter(|p| !p.is_empty()).count() > 1 {
+                ctx.report.violation("oracle", "C14:date-flag-lost-when-histogram-merged-into-empty-from-req", format!("{how}: a valid request failed: {e} — gap filling of a date histogram whose date flag was lost runs with the millisecond interval over nanosecond keys"), case_json(c, parts, "final"));
+                return None;
+            }
             ctx.report.violation("oracle", if absent { "C14:metric-missing-cast-to-u64-in-segment-without-column" } else { "C14:valid-request-rejected" },
                 format!("{how}: a valid request failed: {e}{}", if absent { " — negative range bounds collapse to 0 on the u64-typed substitute of an absent column" } else { "" }), case_json(c, parts, "final"));
             return None;
         }
         Out::Panic(msg) => {
-            let dup = msg.contains("fetch_block requires docs sorted") && specs.alts[0] != specs.base;
+            let sorted_msg = msg.contains("fetch_block requires docs sorted");
+            let matching: Vec<&MDoc> = c.docs.iter().filter(|d| c.q.matches(d)).collect();
+            let dup = sorted_msg && (specs.alts[0] != specs.base || dup_push_signature(c.nodes, &matching));
+            if msg.contains("composite/collector.rs") && msg.contains("subtract with overflow") {
+                ctx.report.violation("oracle", "C14:composite-memory-accounting-underflow", format!("{how}: aggregation panicked: {msg} — SegmentCompositeCollector::collect computes `get_memory_consumption() - mem_pre` after a bucket was evicted from the full top-`size` map (the map shrank): overflow panic with overflow checks, a wrapped huge value and a spurious MemoryExceeded error without them"), case_json(c, parts, "final"));
+                return None;
+            }
+            if sorted_msg && !dup && terms_missing_with_subs(c.nodes) {
+                ctx.report.violation("oracle", "C14:terms-missing-passes-documents-out-of-order", format!("{how}: aggregation panicked: {msg} — a terms aggregation with `missing` appends the substituted documents after the others, so its sub-aggregations receive doc ids out of order"), case_json(c, parts, "final"));
+                return None;
+            }
             if msg.contains("composite/collector.rs") && msg.contains("index out of bounds") && nested_composite(c.nodes, false) {
                 ctx.report.violation("oracle", "C14:composite-sub-aggregation-panics-on-unvisited-parent-bucket", format!("{how}: aggregation panicked: {msg} — a composite below another bucket aggregation is asked for the result of a parent bucket that received no document (SegmentCompositeCollector::add_intermediate_aggregation_result indexes parent_buckets without prepare_max_bucket)"), case_json(c, parts, "final"));
                 return None;
@@ -240,6 +254,10 @@ fn judge_real(ctx: &mut Ctx, c: &CaseIn, parts: &[Vec<usize>], out: &Out, specs:
     let crs = match canon_opt(c.nodes, v, no_segments) {
         Ok(x) => x,
         Err(e) => {
+            if e.contains("date histogram key") && e.contains("key_as_string \"\"") && date_flag_signature(c.nodes, c.docs, parts, false) {
+                ctx.report.violation("oracle", "C14:date-flag-lost-when-histogram-merged-into-empty-from-req", format!("{how}: {e} — a `histogram` on a date field below terms(min_doc_count: 0): the zero-count term of one segment carries `empty_from_req(Histogram)` with is_date_agg = false, merge_fruits keeps the left flag, so the merged buckets are finalised as plain numbers (keys in nanoseconds, no key_as_string, interval not scaled)"), case_json(c, parts, "final"));
+                return None;
+            }
             let key = if range_absent_column_signature(c.nodes, c.docs, parts) { "C14:metric-missing-cast-to-u64-in-segment-without-column" } else { "C14:malformed-result" };
             ctx.report.violation("oracle", key, format!("{how}: {e}{}", if key != "C14:malformed-result" { " — a range with a negative / fractional bound over a segment without any value of the field (the absent column is typed u64 and the bound is converted as u64)" } else { "" }), case_json(c, parts, "final"));
             return None;
@@ -248,7 +266,7 @@ fn judge_real(ctx: &mut Ctx, c: &CaseIn, parts: &[Vec<usize>], out: &Out, specs:
     let mut mt = vec![];
     may_truncate(c.nodes, c.docs, parts, c.q, &mut mt);
     if !mt.is_empty() { ctx.report.count("terms:segment-truncation-possible"); }
-    let mut cx = CmpCtx { no_segments, may_truncate: mt.clone(), skip_subs_at: vec![], lenient_empty_composite: false, notes: vec![] };
+    let mut cx = CmpCtx { no_segments, may_truncate: mt.clone(), skip_subs_at: vec![], skip_metrics: vec![], lenient_empty_composite: false, notes: vec![] };
     for ti in 0..c.nodes.len() {
     let (tn, tc) = (&c.nodes[ti..ti + 1], &crs[ti..ti + 1]);
     if let Err((whr, what)) = compare(tn, tc, &srs[ti..ti + 1], &mut cx) {
@@ -256,7 +274,7 @@ fn judge_real(ctx: &mut Ctx, c: &CaseIn, parts: &[Vec<usize>], out: &Out, specs:
         let mut explained = None;
         if !no_segments {
             for (i, alt) in specs.alts.iter().enumerate() {
-                let mut cx2 = CmpCtx { no_segments, may_truncate: mt.clone(), skip_subs_at: vec![], lenient_empty_composite: false, notes: vec![] };
+                let mut cx2 = CmpCtx { no_segments, may_truncate: mt.clone(), skip_subs_at: vec![], skip_metrics: vec![], lenient_empty_composite: false, notes: vec![] };
                 if alt[ti] != specs.base[ti] && compare(tn, tc, &alt[ti..ti + 1], &mut cx2).is_ok() { explained = Some(i); break; }
             }
         }
@@ -268,7 +286,7 @@ fn judge_real(ctx: &mut Ctx, c: &CaseIn, parts: &[Vec<usize>], out: &Out, specs:
             let mut dup = vec![];
             dup_nodes(tn, &specs.base[ti..ti + 1], &specs.alts[0][ti..ti + 1], &mut dup);
             for (i, alt) in [(0usize, &specs.alts[0]), (2usize, &specs.alts[2])] {
-                let mut cx3 = CmpCtx { no_segments, may_truncate: mt.clone(), skip_subs_at: dup.clone(), lenient_empty_composite: composite_below_mdc0_terms(c.nodes, false), notes: vec![] };
+                let mut cx3 = CmpCtx { no_segments, may_truncate: mt.clone(), skip_subs_at: dup.clone(), skip_metrics: suspicious_metrics(c.nodes, c.docs, parts, false), lenient_empty_composite: composite_below_mdc0_terms(c.nodes, false), notes: vec![] };
                 if compare(tn, tc, &alt[ti..ti + 1], &mut cx3).is_ok() { explained = Some(i); break; }
             }
         }
@@ -283,6 +301,8 @@ fn judge_real(ctx: &mut Ctx, c: &CaseIn, parts: &[Vec<usize>], out: &Out, specs:
             }
             None if tophits_flush_signature(c.nodes, &whr, c.docs.iter().filter(|d| c.q.matches(d)).count()) => ctx.report.violation("oracle", "C14:top-hits-lost-after-intermediate-flush", format!("{how}: at {whr}: {what} — top_hits below a bucket aggregation over >= 2048 collected documents: the sub-aggregation buffer is flushed in batches and TopHitsSegmentCollector::prepare_max_bucket resizes (shrinks) its bucket vector to the current batch's highest bucket id"), case_json(c, parts, "final")),
             None if what.contains("composite buckets []") && composite_below_mdc0_terms(c.nodes, false) => ctx.report.violation("oracle", "C14:composite-lost-when-merged-into-empty-from-req", format!("{how}: at {whr}: {what} — the composite sits below a terms aggregation with min_doc_count = 0: a zero-count term of one segment carries `empty_from_req(Composite)` (target_size 0); merging another segment's buckets INTO it trims them to 0"), case_json(c, parts, "final")),
+            None if metric_under_terms_missing(c.nodes, &whr) => ctx.report.violation("oracle", "C14:terms-missing-passes-documents-out-of-order", format!("{how}: at {whr}: {what} — a metric with `missing` below a terms aggregation with `missing`: the terms collector appends the substituted documents after the others, the sub-aggregation receives doc ids out of order and find_missing_docs (which assumes ascending ids) substitutes `missing` for documents that have a value"), case_json(c, parts, "final")),
+            None if sub_order_missing_signature(c.nodes, c.docs, parts, &whr) => ctx.report.violation("oracle", "C14:metric-missing-cast-to-u64-in-segment-without-column", format!("{how}: at {whr}: {what} — the terms aggregation is ordered by a metric whose negative / fractional `missing` is converted as u64 in a segment without the column"), case_json(c, parts, "final")),
             None if missing_sig => ctx.report.violation("oracle", "C14:metric-missing-cast-to-u64-in-segment-without-column", format!("{how}: at {whr}: {what} — the metric has a negative / fractional `missing` and a segment holds no value of the field (the column is absent there and `missing` is converted as u64)"), case_json(c, parts, "final")),
             None => ctx.report.violation("oracle", &key_of(&whr, c.nodes), format!("{how}: at {whr}: {what}"), case_json(c, parts, "final")),
         }
@@ -367,6 +387,74 @@ fn tophits_flush_signature(nodes: &[Node], whr: &str, matching: usize) -> bool {
 /// the request has a composite aggregation below a terms aggregation with `min_doc_count: 0`
 fn composite_below_mdc0_terms(nodes: &[Node], below: bool) -> bool {
     nodes.iter().any(|n| (below && matches!(n.agg, Agg::Composite { .. })) || composite_below_mdc0_terms(&n.subs, below || matches!(n.agg, Agg::Terms { mdc: Some(0), .. })))
+}
+
+/// the request has a plain `histogram` on the date field below a terms aggregation with `min_doc_count: 0`
+fn date_hist_below_mdc0_terms(nodes: &[Node], below: bool) -> bool {
+    nodes.iter().any(|n| (below && matches!(n.agg, Agg::Hist { field: Fd::D, date_hist: false, .. })) || date_hist_below_mdc0_terms(&n.subs, below || matches!(n.agg, Agg::Terms { mdc: Some(0), .. })))
+}
+
+/// a plain `histogram` on the date field that can meet `empty_from_req` (below terms with
+/// min_doc_count 0 or below a gap-filling histogram) or a segment without any date value
+fn date_flag_signature(nodes: &[Node], docs: &[MDoc], parts: &[Vec<usize>], below: bool) -> bool {
+    let absent = parts.iter().any(|p| !p.is_empty() && p.iter().all(|&i| docs[i][Fd::D.id()].is_empty()));
+    nodes.iter().any(|n| ((below || absent) && matches!(n.agg, Agg::Hist { field: Fd::D, date_hist: false, .. }))
+        || date_flag_signature(&n.subs, docs, parts, below || matches!(n.agg, Agg::Terms { mdc: Some(0), .. }) || matches!(n.agg, Agg::Hist { mdc: None | Some(0), .. })))
+}
+
+/// some histogram / range / composite node with sub-aggregations gets a matching document twice
+fn dup_push_signature(nodes: &[Node], matching: &[&MDoc]) -> bool {
+    nodes.iter().any(|n| {
+        let here = !n.subs.is_empty() && matching.iter().any(|d| {
+            let keys: Vec<i64> = match &n.agg {
+                Agg::Hist { field, interval, offset, .. } => d[field.id()].iter().map(|v| (v - offset.unwrap_or(0)).div_euclid(*interval)).collect(),
+                Agg::Range { field, ranges } => { let cuts = range_cuts(*field, ranges); d[field.id()].iter().map(|v| cuts.iter().filter(|c| **c <= *v).count() as i64).collect() }
+                _ => vec![],
+            };
+            let mut k2 = keys.clone(); k2.sort(); k2.dedup();
+            k2.len() != keys.len()
+        });
+        here || dup_push_signature(&n.subs, matching)
+    })
+}
+
+/// a terms aggregation with `missing` that has sub-aggregations
+fn terms_missing_with_subs(nodes: &[Node]) -> bool {
+    nodes.iter().any(|n| (matches!(n.agg, Agg::Terms { missing: Some(_), .. }) && !n.subs.is_empty()) || terms_missing_with_subs(&n.subs))
+}
+
+fn find_node<'a>(nodes: &'a [Node], name: &str) -> Option<&'a Node> {
+    for n in nodes { if n.name == name { return Some(n); } if let Some(x) = find_node(&n.subs, name) { return Some(x); } }
+    None
+}
+
+/// the failing node is a metric with `missing` and one of its ancestors is a terms aggregation with `missing`
+fn metric_under_terms_missing(nodes: &[Node], whr: &str) -> bool {
+    let names: Vec<&str> = whr.split('>').filter(|s| s.starts_with('a')).collect();
+    let last = match names.last() { Some(l) => *l, None => return false };
+    let is_metric = matches!(find_node(nodes, last).map(|n| &n.agg), Some(Agg::Metric { missing: Some(_), .. }));
+    is_metric && names[..names.len() - 1].iter().any(|a| matches!(find_node(nodes, a).map(|n| &n.agg), Some(Agg::Terms { missing: Some(_), .. })))
+}
+
+/// the failing node is a terms aggregation ordered by a metric child that has the absent-column signature
+fn sub_order_missing_signature(nodes: &[Node], docs: &[MDoc], parts: &[Vec<usize>], whr: &str) -> bool {
+    let names: Vec<&str> = whr.split('>').filter(|s| s.starts_with('a')).collect();
+    names.iter().any(|a| match find_node(nodes, a) {
+        Some(n) => match &n.opt.sub_order { Some((target, _, _)) => metric_missing_signature(nodes, docs, parts, target), None => false },
+        None => false,
+    })
+}
+
+/// metrics that carry the signature of a known finding other than the one being tested
+fn suspicious_metrics(nodes: &[Node], docs: &[MDoc], parts: &[Vec<usize>], below_terms_missing: bool) -> Vec<String> {
+    let mut out = vec![];
+    for n in nodes {
+        if let Agg::Metric { missing: Some(_), .. } = &n.agg {
+            if below_terms_missing || metric_missing_signature(std::slice::from_ref(n), docs, parts, &n.name) { out.push(n.name.clone()); }
+        }
+        out.extend(suspicious_metrics(&n.subs, docs, parts, below_terms_missing || matches!(n.agg, Agg::Terms { missing: Some(_), .. })));
+    }
+    out
 }
 
 /// the request has a composite aggregation below another bucket aggregation
@@ -459,10 +547,13 @@ pub fn check_request(ctx: &mut Ctx, rng: &mut Rng, corpus: &Corpus, nodes: &[Nod
         match search_fruit(idx, q, &aggs) { Ok(f) => fruits.push(f), Err(e) => fruit_err = Some(e) }
     }
     if let Some(e) = fruit_err {
-        let dup = e.contains("fetch_block requires docs sorted") && specs.alts[0] != specs.base;
+        let matching_docs: Vec<&MDoc> = corpus.docs.iter().filter(|d| q.matches(d)).collect();
+        let dup = e.contains("fetch_block requires docs sorted") && (specs.alts[0] != specs.base || dup_push_signature(nodes, &matching_docs));
         let absent = e.contains("Overlapping ranges") && range_absent_column_signature(nodes, &corpus.docs, sparts);
+        let memu = e.contains("composite/collector.rs") && e.contains("subtract with overflow");
+        let unsorted = e.contains("fetch_block requires docs sorted") && !dup && terms_missing_with_subs(nodes);
         let comp = e.contains("composite/collector.rs") && e.contains("index out of bounds") && nested_composite(nodes, false);
-        ctx.report.violation("oracle", if comp { "C14:composite-sub-aggregation-panics-on-unvisited-parent-bucket" } else if dup { "C14:histogram-range-doc-count-counts-values" } else if absent { "C14:metric-missing-cast-to-u64-in-segment-without-column" } else { "C14:valid-request-rejected" }, format!("DistributedAggregationCollector failed: {e}"), case_json(&c, sparts, "distributed"));
+        ctx.report.violation("oracle", if memu { "C14:composite-memory-accounting-underflow" } else if unsorted { "C14:terms-missing-passes-documents-out-of-order" } else if comp { "C14:composite-sub-aggregation-panics-on-unvisited-parent-bucket" } else if dup { "C14:histogram-range-doc-count-counts-values" } else if absent { "C14:metric-missing-cast-to-u64-in-segment-without-column" } else { "C14:valid-request-rejected" }, format!("DistributedAggregationCollector failed: {e}"), case_json(&c, sparts, "distributed"));
     } else {
         for round in 0..3 {
             let serialise = round > 0;
@@ -516,7 +607,7 @@ fn count_kinds(ctx: &mut Ctx, nodes: &[Node]) {
             Agg::Hist { field, date_hist, hard, ext, offset, mdc, .. } => format!("agg:{}:{}{}{}{}{}", if *date_hist { "date_histogram" } else { "histogram" }, field.name(), if hard.is_some() { "+hard" } else { "" }, if ext.is_some() { "+ext" } else { "" }, if offset.is_some() { "+offset" } else { "" }, if mdc.unwrap_or(0) > 0 { "+mdc" } else { "" }),
             Agg::Range { field, .. } => format!("agg:range:{}", field.name()),
             Agg::Filter { field, .. } => format!("agg:filter:{}", field.name()),
-            Agg::Composite { sources, .. } => format!("agg:composite:{}", sources.iter().map(|c| format!("{}{}", c.field.name(), if c.interval.is_some() { "-hist" } else { "" })).collect::<Vec<_>>().join("+")),
+            Agg::Composite { sources, after, .. } => format!("agg:composite{}:{}", if after.is_some() { "+after" } else { "" }, sources.iter().map(|c| format!("{}{}", c.field.name(), if c.interval.is_some() { "-hist" } else { "" })).collect::<Vec<_>>().join("+")),
         };
         ctx.report.count(&k);
         if n.opt.keyed && matches!(n.agg, Agg::Hist { .. } | Agg::Range { .. }) { ctx.report.count("opt:keyed"); }
@@ -760,6 +851,30 @@ fn probe_tophits_flush(ctx: &mut Ctx) {
     check_request(ctx, &mut rng, &corpus, &nodes, Q::All);
 }
 
+/// hand-written corpus for the lost date flag: terms(min_doc_count 0) > histogram(date field),
+/// the zero-count term of the first segment meets the same term with a date in the second
+fn probe_date_flag(ctx: &mut Ctx) {
+    let mut d0: MDoc = vec![vec![]; NF];
+    d0[Fd::Kw.id()] = vec![1, 9];
+    d0[Fd::Uid.id()] = vec![0];
+    let mut d1: MDoc = vec![vec![]; NF];
+    d1[Fd::Kw.id()] = vec![9];
+    d1[Fd::D.id()] = vec![1_600_000_000_000];
+    d1[Fd::Uid.id()] = vec![1];
+    d1[Fd::Sel.id()] = vec![0];
+    let docs = vec![d0, d1];
+    let nodes = vec![Node { name: "a1".into(), agg: Agg::Terms { field: Fd::Kw, size: None, seg: None, mdc: Some(0), order: None, missing: None },
+        subs: vec![Node { name: "a2".into(), agg: Agg::Hist { field: Fd::D, interval: 60_000, offset: None, mdc: Some(1), hard: None, ext: None, date_hist: false }, subs: vec![], opt: Opt::default() }], opt: Opt::default() }];
+    let parts = vec![vec![0usize], vec![1usize]];
+    let all = vec![0usize, 1];
+    let segs = vec![(vec![all.clone()], build_index(&docs, &[all.clone()])), (parts.clone(), build_index(&docs, &parts))];
+    let idxs = parts.iter().map(|p| build_index(&docs, &[p.clone()])).collect();
+    let corpus = Corpus { docs, segs, split: (parts, idxs) };
+    let mut rng = Rng::new(1);
+    ctx.report.count("probe:date-flag-under-mdc0-terms");
+    check_request(ctx, &mut rng, &corpus, &nodes, Q::Sel(0));
+}
+
 fn gen_query(rng: &mut Rng) -> Q {
     match rng.below(4) { 0 | 1 => Q::All, 2 => Q::Sel(rng.below(3)), _ => Q::Cat(rng.below(5) as i64) }
 }
@@ -778,6 +893,13 @@ pub fn replay(ctx: &mut Ctx, case: &Value) {
     let corpus = Corpus { docs, segs, split: (parts, idxs) };
     check_request(ctx, &mut rng, &corpus, &nodes, q);
     if case["kind"] == "limit" { check_limits(ctx, &mut rng, &corpus, &nodes, q); }
+    // show what the code returns (one segment / the recorded partition) next to the direct result
+    if let Ok(aggs) = serde_json::from_value::<Aggregations>(nodes_to_json(&nodes)) {
+        for (parts, index) in &corpus.segs {
+            let out = search_final(index, q, &aggs, None, None);
+            ctx.report.notes.push(format!("replay: parts {:?}: {}", parts, match out { Out::Ok(v) => v.to_string().chars().take(3000).collect::<String>(), other => format!("{other:?}") }));
+        }
+    }
     ctx.report.notes.push("replay: re-ran the recorded (documents, request, query, partition)".into());
 }
 
@@ -793,6 +915,8 @@ pub fn run(ctx: &mut Ctx) {
     ];
     std::panic::set_hook(Box::new(|info| {
         if let Ok(mut s) = LAST_PANIC.lock() { *s = info.to_string().chars().take(300).collect(); }
+        // a panic of the harness itself (relative source path) is not caught anywhere: show it
+        if info.location().map(|l| !l.file().starts_with('/')).unwrap_or(true) { eprintln!("harness panic: {info}"); }
     }));
     if let Some(case) = ctx.replay.clone() {
         replay(ctx, &case);
@@ -810,6 +934,7 @@ pub fn run(ctx: &mut Ctx) {
         }
     }
     probe_tophits_flush(ctx);
+    probe_date_flag(ctx);
     let corpora = ctx.budget(60, 2000);
     let reqs_per = ctx.budget(7, 12);
     for ci in 0..corpora {
